@@ -43,11 +43,11 @@ func Spec() *run.Spec {
 		ID: "C20", Level: "exploration",
 		Rule: "sets: one case = one generated point set (class and extent decade cycle with the case index: uniform, clustered, jittered grid, jittered circles with centre, " +
 			"near-collinear hull, mixed, two-scale, gaussian; 3-120 points; larger side 1e-3..1e6; aspect ratio 1..1000 in either axis; offset 0..1e6; optional rotation), triangulated twice: as generated and with the " +
-			"points permuted. orders: one case = one set of 4-6 points triangulated in every insertion order (24/120/720). A set is used only if every triple/quadruple is further than 1e-13 (relative) " +
+			"points permuted. orders: one case = one set of 4-6 points triangulated in every insertion order (24/120/720). A set is used only if every triple/quadruple is further than 1e-13 (relative to the determinant's permanent) " +
 			"from collinear/co-circular (general position at float resolution; otherwise redrawn with a larger jitter). Non-trivial = at least 4 points, both outputs non-empty and at least one " +
 			"interior Delaunay triangle was required and found. Signature = class x size bucket x extent decade x aspect/axis x offset decade x rotation.",
 		Assumptions: []string{
-			"input points are distinct and in general position: no triple within 1e-13 (relative to the product of its extents) of collinear, no quadruple within 1e-13 (relative to 12*diameter^4) of co-circular",
+			"input points are distinct and in general position: no triple / quadruple whose orientation / in-circle determinant is within 1e-13 of its permanent (largest over the choice of origin), i.e. two orders above double-precision evaluation error",
 			"(triangle, point) pairs whose in-circle determinant is within 1e-9 of its permanent are don't-care for the empty-circumcircle clause and for the required-triangle clause",
 			"completeness is demanded only for Delaunay triangles whose circumcircle lies inside the bounding box grown by 0.49 x its larger side on every side (hull handling of the finite enclosing triangle is not prescribed); missing hull triangles are counted as observations",
 			"the 2-D point (x,y) is read back from the mesh position (x,0,y)",
@@ -64,8 +64,8 @@ func Spec() *run.Spec {
 		},
 		Phases: []run.Phase{
 			{Name: "oracle-selftest", Cases: func(string) int { return 1 }, Run: selfTest, Batch: 1},
-			{Name: "sets", Cases: tiered(1600, 40000), Run: setCase, Batch: 20, CPUBudgetS: 60},
-			{Name: "orders", Cases: tiered(150, 3000), Run: orderCase, Batch: 10, CPUBudgetS: 60},
+			{Name: "sets", Cases: tiered(3000, 40000), Run: setCase, Batch: 20, CPUBudgetS: 60},
+			{Name: "orders", Cases: tiered(300, 3000), Run: orderCase, Batch: 10, CPUBudgetS: 60},
 		},
 	}
 }
